@@ -468,6 +468,29 @@ def stress_jobs(ctx, rng):
     return jobs
 
 
+def nested_jobs(ctx, rng):
+    """outer queries through one shared optimizer whose trial functions query THE SAME object (same thread) about
+    other, uncached contractions: directly (inner search / __call__) and through the library's own
+    PartitionTreeBuilder.build_divide(super_optimize=<the shared object or a preset name bound to it>)"""
+    jobs = []
+    pool = distinct_pool(rng, [9, 10, 8, 4, 5, 6, 7])       # outer: 0,1,2 ; inner: 3,4,5,6
+    for method in ("c16-nest-direct", "c16-nest-builder"):
+        base = {"max_repeats": 2, "methods": [method], "optlib": "random"}
+        cfgs = [("reusable-hyper", dict(base, overwrite=ow)) for ow in (False, True, "improved")]
+        cfgs += [("auto", dict(base, cache=True, optimal_cutoff=0)), ("autohq", dict(base, cache=True, optimal_cutoff=0))]
+        for target, opts in cfgs:
+            for bound in (False, True):
+                for api in ("tree", "path"):
+                    for inner_api in (("path", "tree") if method == "c16-nest-direct" else ("path",)):
+                        if bound and api == "path" and inner_api == "tree":
+                            continue
+                        jobs.append({"kind": "nested", "target": target, "opts": opts, "queries": pool,
+                                     "history": [0, 0, 1, 0, 2, 1, 3], "inner": [3, 4, 5, 6], "api": api,
+                                     "inner_api": inner_api, "bound_preset": bound,
+                                     "tag": "nested:%s:%s%s" % (method[4:], target, ":bound-preset" if bound else "")})
+    return jobs
+
+
 def is_uncached_auto(job):
     return job["target"] in ("auto", "autohq") and job.get("opts", {}).get("cache", True) is False
 
@@ -494,6 +517,7 @@ def run(ctx):
     fj = forced_jobs(ctx, rng)
     sj = seq_jobs(ctx, rng)
     tj = stress_jobs(ctx, rng)
+    nj = nested_jobs(ctx, rng)
     # the repro of the known finding, probed on every run (kept in corpus/C16)
     corpus = os.path.join(os.path.dirname(os.path.dirname(HERE)), "corpus", "C16")
     probes = []
@@ -512,11 +536,14 @@ def run(ctx):
     nsolo = sum(1 for j in sj if j.get("solo"))
     sb = chunks(sj[:len(sj) - nsolo], 4) + [[j] for j in sj[len(sj) - nsolo:]]
     tb = chunks(tj, 2)
-    batches = fb + sb + tb
+    nb = chunks(nj, 6)
+    batches = fb + sb + tb + nb
     ctx.log("jobs: %d forced, %d sequential, %d stress in %d worker processes" % (len(fj), len(sj), len(tj), len(batches)))
     res = run_batches(ctx, batches, timeout=ctx.n(400, 1500))
     flat = [r for b in res for r in b]
-    fres, sres, tres = flat[:len(fj)], flat[len(fj):len(fj) + len(sj)], flat[len(fj) + len(sj):]
+    fres, sres = flat[:len(fj)], flat[len(fj):len(fj) + len(sj)]
+    tres = flat[len(fj) + len(sj):len(fj) + len(sj) + len(tj)]
+    nres = flat[len(fj) + len(sj) + len(tj):]
     ctx.log("workers done in %.1fs" % (time.time() - t0))
 
     def strip(job):
@@ -560,6 +587,16 @@ def run(ctx):
         ctx.count("seq:" + job["tag"])
         ctx.case(("seq", job["target"], json.dumps(job.get("opts"), sort_keys=True), str(job["api"]), tuple(job["history"])),
                  nontrivial=len(set(job["history"])) >= 3, sample=None)
+    for job, r in zip(nj, nres):
+        report(job, r, "history with NESTED queries (a trial of the running search asks the same optimizer object)")
+        ctx.count(job["tag"])
+        if "error" not in r:
+            ctx.count("nested-queries-made", r.get("nested_total", 0))
+            if not r.get("nested_total"):
+                ctx.fail("no nested query happened in a nested job (the harness does not reach the situation)",
+                         {"job": strip(job), "result": r}, found_input=False)
+        ctx.case(("nested", job["target"], json.dumps(job["opts"], sort_keys=True), job["api"], job["inner_api"],
+                  job["bound_preset"]), nontrivial=True, sample=None)
     for job, r in zip(tj, tres):
         report(job, r, "stress run")
         ctx.count(job["tag"])
